@@ -43,6 +43,7 @@ type response struct {
 	Stats   map[string]int `json:"stats,omitempty"`
 	Sample  []string       `json:"sample,omitempty"`
 	MetaErr string         `json:"metaerr,omitempty"`
+	Hung    bool           `json:"hung,omitempty"`
 }
 
 func subset(c *vcase, keep []int) *vcase {
@@ -80,6 +81,12 @@ func runWorker(o Opts) error {
 		if rq.Stages != 0 {
 			rs.Fails, obj = checkCase(c, rq.Deep, rq.Stages)
 			for k, f := range rs.Fails {
+				if f.Class == "hang" {
+					// a leaked goroutine may still be spinning: no re-runs in this process
+					f.Replay = replayOf(c, obj)
+					rs.Hung = true
+					continue
+				}
 				rs.Fails[k] = shrink(c, f)
 			}
 		}
@@ -178,10 +185,13 @@ func (w *worker) call(rq request) (rs *response, crash string, err error) {
 				if err := json.Unmarshal(x.line, rs); err != nil {
 					return nil, "", fmt.Errorf("bad worker response: %v", err)
 				}
+				if rs.Hung {
+					w.stop() // fresh process for the next case
+				}
 				return rs, "", nil
 			}
-		case <-time.After(120 * time.Second):
-			crash = "watchdog: worker did not answer in 120s"
+		case <-time.After(20 * time.Minute):
+			crash = "watchdog: worker did not answer in 20 minutes"
 		}
 	}
 	w.stop()
